@@ -2,7 +2,7 @@
 # usage: tools/seedkeep.py Cxx [other props to run ...]  — copy a confirmed seeded change into /verif/seeded/Cxx/, run the quick checks on /repo with it applied, record the outcome
 import json, os, shutil, subprocess, sys
 pid = sys.argv[1]; props = [pid] + sys.argv[2:]
-src = f"/tmp/seed-out/{pid}"; dst = f"/verif/seeded/{pid}"
+src = os.path.join(os.environ.get("SEEDOUT", "/tmp/seed-out"), pid); dst = f"/verif/seeded/{pid}" + os.environ.get("SEEDSUFFIX", "")
 os.makedirs(dst, exist_ok=True)
 for f in ("patch.diff", "seed_demo_test.go", "meta.json"):
     shutil.copy(os.path.join(src, f), os.path.join(dst, f))
